@@ -294,6 +294,32 @@ def _lax_constructor(m: ModuleInfo, lax: ast.FunctionDef, strict_fn: ast.Functio
                             f"the lax loader of {target} rejects when `{norm(guard.test)}` (outside the handlers of its "
                             f"constructor call) but the strict loader `{strict_fn.name}` has no such rejection: a datum of the "
                             "exact target type that strict mode accepts is refused by the lax mode", guard.lineno))
+    # a conditional return of the constructed value is a rejection under the negated test (`if ok(v): return v` ... raise)
+    all_strict_tests = {canon(n.test, sd, set()) for n in ast.walk(strict_fn) if isinstance(n, ast.If)}
+    for r in [x for x in ast.walk(lax) if isinstance(x, ast.Return) and x.value is not None]:
+        if not (norm(r.value) in result_vars or (isinstance(r.value, ast.Call) and norm(r.value.func) == ctor)):
+            continue
+        p = parents.get(id(r))
+        in_handler = False
+        guards: List[ast.If] = []
+        while p is not None and p is not lax:
+            if isinstance(p, ast.ExceptHandler):
+                in_handler = True
+            if isinstance(p, ast.If):
+                guards.append(p)
+            p = parents.get(id(p))
+        if in_handler:
+            continue
+        for g in guards:
+            if not any(isinstance(x, ast.Name) and x.id in result_vars for x in ast.walk(g.test)):
+                continue     # dispatch on the datum before construction, not a validation of the result
+            res.evaluated(f"scalar:lax-conditional-accept:{lax.name}:{norm(g.test)}", True)
+            t = canon(g.test, d, result_vars)
+            if t not in all_strict_tests:
+                res.add(Finding("C07", "SCALAR.lax-rejects-more", m.rel, lax.name, norm(g.test),
+                                f"the lax loader of {target} returns the constructed value only when `{norm(g.test)}` holds, but the "
+                                f"strict loader `{strict_fn.name}` has no such condition: a datum of the exact target type that "
+                                "strict mode accepts is refused by the lax mode", g.lineno))
     return ctor
 
 
